@@ -48,7 +48,13 @@ class CallbackRule(Rule):
             if self.cb_sets_config and isinstance(cfg, Ref):
                 self.havoc_config(it, s, cfg)
             self.on_cb(it, s, args, node)
-            outs.append((s, Int(0) if oc == 'ret0' else Int(1)))
+            if oc == 'ret0':
+                outs.append((s, Int(0)))
+            else:
+                # any non-zero value, negative ones included
+                t = Term(('cbret', '%s:%s' % node_loc(node)))
+                s.cons[t.k] = (('!=', 0),)
+                outs.append((s, t))
         return outs
 
     def havoc_config(self, it, s, cfg):
